@@ -392,6 +392,9 @@ func (a *allowerContext) update(provider AuthEventProvider) {
 	if provider != a.provider {
 		a.provider = provider
 		a.createEvent, a.powerLevelsEvent, a.joinRuleEvent = nil, nil, nil
+		a.resetCreate()
+		a.powerLevels = PowerLevelContent{}
+		a.joinRule = JoinRuleContent{}
 	}
 	if e, _ := provider.Create(); a.createEvent == nil || a.createEvent != e {
 		if c, err := NewCreateContentFromAuthEvents(provider, a.userIDQuerier); err == nil {
@@ -400,6 +403,11 @@ func (a *allowerContext) update(provider AuthEventProvider) {
 			a.creators = CreatorsFromCreateEvent(e)
 			verImpl := MustGetRoomVersion(e.Version())
 			a.privilegedCreators = verImpl.PrivilegedCreators()
+		} else {
+			// Never keep the contents of an earlier create event around: the verdict
+			// must not depend on what was checked before.
+			a.createEvent = nil
+			a.resetCreate()
 		}
 	}
 	if e, _ := provider.PowerLevels(); a.powerLevelsEvent == nil || a.powerLevelsEvent != e {
@@ -410,14 +418,27 @@ func (a *allowerContext) update(provider AuthEventProvider) {
 		if p, err := NewPowerLevelContentFromAuthEvents(provider, creator); err == nil {
 			a.powerLevelsEvent = e
 			a.powerLevels = p
+		} else {
+			a.powerLevelsEvent = nil
+			a.powerLevels = PowerLevelContent{}
 		}
 	}
 	if e, _ := provider.JoinRules(); a.joinRuleEvent == nil || a.joinRuleEvent != e {
 		if j, err := NewJoinRuleContentFromAuthEvents(provider); err == nil {
 			a.joinRuleEvent, _ = provider.JoinRules()
 			a.joinRule = j
+		} else {
+			a.joinRuleEvent = nil
+			a.joinRule = JoinRuleContent{}
 		}
 	}
+}
+
+// resetCreate forgets the cached create event contents.
+func (a *allowerContext) resetCreate() {
+	a.create = CreateContent{}
+	a.creators = nil
+	a.privilegedCreators = false
 }
 
 // Allowed checks whether an event is allowed by the auth events, using the
